@@ -258,6 +258,11 @@ tzm_find(tzmap_t m, const char *mname)
 		const char *p;
 
 		tp = (const char*)(sp + (ep - sp) / 2U);
+#if defined DATEUTILS_VERIF
+		/* the record about to be looked at lies in the key area */
+		dateutils_verif_probe(
+			"tzm_rec", tp - tzm_mnames(m), tzm_mname_size(m), 0, 0);
+#endif	/* DATEUTILS_VERIF */
 		if (!*tp) {
 			/* fast forward to the next entry */
 			tp += sizeof(*sp);
@@ -267,6 +272,11 @@ tzm_find(tzmap_t m, const char *mname)
 				tp--;
 			}
 		}
+#if defined DATEUTILS_VERIF
+		/* ... still after rewinding/forwarding to its beginning */
+		dateutils_verif_probe(
+			"tzm_rec", tp - tzm_mnames(m), tzm_mname_size(m), 1, 0);
+#endif	/* DATEUTILS_VERIF */
 		/* store tp again */
 		p = tp;
 		/* now unroll a strcmp */
@@ -284,6 +294,16 @@ tzm_find(tzmap_t m, const char *mname)
 				sp = op + 1U;
 			} else {
 				/* found it */
+#if defined DATEUTILS_VERIF
+				/* the offset word lies in the key area and
+				 * points into the zone name pool */
+				dateutils_verif_probe(
+					"tzm_rec", (const char*)op - tzm_mnames(m),
+					tzm_mname_size(m), 2, 0);
+				dateutils_verif_probe(
+					"tzm_ret", be32toh(*op) >> 8U,
+					tzm_zname_size(m), 0, 0);
+#endif	/* DATEUTILS_VERIF */
 				return zns + (be32toh(*op) >> 8U);
 			}
 		}
